@@ -46,6 +46,22 @@ pub fn generate(g: &mut Gen) {
             single_layer(g, spec, Sh::Flat(4), &format!("dense/{}", act));
         }
     }
+    // scale: tiny inputs against huge weights, huge inputs against tiny weights, subnormal inputs (W x + b has no
+    // threshold below which an input stops counting), for dense layers and a convolution
+    for (xs, wscale) in [(vec![5e-8f32, 1e-9, -3e-8, 2e-10], 1e6f32), (vec![1e-30, -2e-31, 3e-30, 1e-32], 1e28), (vec![3e4, -1e5, 2e4, 5e3], 1e-5),
+                         (vec![f32::from_bits(1), f32::from_bits(77), 0.0, -f32::from_bits(5)], 1e30)] {
+        let w = Tensor::double((0..3).map(|i| (0..4).map(|j| wscale * (0.3 + 0.17 * i as f32 - 0.11 * j as f32)).collect()).collect());
+        let spec = InnerSpec::Dense { out: 3, act: "linear".into(), bias: true, dropout: None, w, b: Some(Tensor::single(vec![0.0, 0.0, 0.0])) };
+        let net = NetSpec { input: Shape::Single(4), builds: vec![Build::Layer(spec)], skipacc: "add".into(), loopacc: "mean".into(), opt: None, obj: "mse".into(), clamp: None };
+        g.push(format!("net {} predict {}", net.token(), qt(&Tensor::single(xs.clone()))), Tol::Tight, "dense/scale", true);
+        let k = Tensor::triple(vec![vec![vec![wscale, -0.5 * wscale], vec![0.25 * wscale, wscale]]]);
+        let conv = InnerSpec::Conv { filters: 1, act: "linear".into(), k: (2, 2), s: (1, 1), p: (0, 0), d: (1, 1), dropout: None, ks: vec![k] };
+        let netc = NetSpec { input: Shape::Triple(1, 2, 2), builds: vec![Build::Layer(conv)], skipacc: "add".into(), loopacc: "mean".into(), opt: None, obj: "mse".into(), clamp: None };
+        g.push(format!("net {} predict {}", netc.token(), qt(&Tensor::triple(vec![vec![xs[..2].to_vec(), xs[2..].to_vec()]]))), Tol::Tight, "conv/scale", true);
+    }
+    // a prediction made after a training run that stopped early is still the composition of the layers' operators: the
+    // network must be back in inference mode
+    crate::gen::netprops::early_stopped_dropout_learn(g, "after-early-stop");
     // every layer kind next to every other (incl. feedback blocks), flat and spatial entry
     for (net, _) in [zoo_net2(g, 1), zoo_flat(g)] {
         let x = input_for(g, &net.input);
